@@ -3,7 +3,7 @@ import ast
 
 from ..core import AnalysisError, dotted, call_name, src, walk_local
 from ..flow import leaves
-from ..rules import flow_of, state_writes, facts_at, canon, cmp_norm, gexpand, fold_compare
+from ..rules import flow_of, state_writes, facts_at, canon, cmp_norm, gexpand, fold_compare, alts_deep, specialise
 from ..bounds import upper_bounds, taint, contains_noise, sig, MIN_NAMES
 
 EXPLANATION = ("Clamp discipline decided on def-use-expanded expressions: (R1) the ideal battery's granted power is a minimum "
@@ -91,24 +91,28 @@ def rule_stepwise(ck, rid="C03.R2"):
         if not feasible:
             raise AnalysisError("_charge_stepwise: cannot tell the pre-transition from the rampdown branch")
         for pre in feasible:
-            n_cases += 1
-            e = fold_compare(e0, region(pre))
-            if "__gamma__" in canon(e) and "self._transition_soc" in canon(e):
+            e_all = fold_compare(e0, region(pre))
+            if "__gamma__" in canon(e_all) and "self._transition_soc" in canon(e_all):
                 raise AnalysisError("_charge_stepwise: a region-dependent choice is not decided by `soc < transition soc`")
-            noisy = contains_noise(e)
-            ub = upper_bounds(e)
-            need = [("pilot x voltage", pilot_power(f)), ("fill rate", FILL)]
-            if pre or noisy:
-                need.append(("maximum power", MAXP))
-            if not pre:
-                # the declining maximum bounds the clean value; after additive noise the hard maximum must bound it
-                if not noisy:
-                    need.append(("declining maximum power", DECL))
-            for name, s_ in need:
-                ok = s_ in ub or (s_ == MAXP and not noisy and DECL in ub and not pre)
-                ck.require(ok, rid, f, how[1], ok=f"{'pre-transition' if pre else 'rampdown'}{' + noise' if noisy else ''}: power <= {name}",
-                           bad=f"{'pre-transition' if pre else 'rampdown'}{' + noise' if noisy else ''} branch: the power reaching the battery state is not bounded by {name}",
-                           sink=f"stepwise:{'pre' if pre else 'ramp'}:{'noise' if noisy else 'clean'}:{name}")
+            # a value chosen by a remaining test (noise on / off) is judged alternative by alternative: each one reaches the state on
+            # its own path and must carry its own bounds
+            alts = alts_deep(specialise(e_all, {}), limit=8) if ("__gamma__" in canon(e_all) or "__phi__" in canon(e_all)) else [e_all]
+            for e in alts:
+                n_cases += 1
+                noisy = contains_noise(e)
+                ub = upper_bounds(e)
+                need = [("pilot x voltage", pilot_power(f)), ("fill rate", FILL)]
+                if pre or noisy:
+                    need.append(("maximum power", MAXP))
+                if not pre:
+                    # the declining maximum bounds the clean value; after additive noise the hard maximum must bound it
+                    if not noisy:
+                        need.append(("declining maximum power", DECL))
+                for name, s_ in need:
+                    ok = s_ in ub or (s_ == MAXP and not noisy and DECL in ub and not pre)
+                    ck.require(ok, rid, f, how[1], ok=f"{'pre-transition' if pre else 'rampdown'}{' + noise' if noisy else ''}: power <= {name}",
+                               bad=f"{'pre-transition' if pre else 'rampdown'}{' + noise' if noisy else ''} branch: the power reaching the battery state is not bounded by {name}",
+                               sink=f"stepwise:{'pre' if pre else 'ramp'}:{'noise' if noisy else 'clean'}:{name}")
     ck.floor(rid, n_cases, 3, "(definition, region) cases of the granted power")
 
 
